@@ -14,6 +14,7 @@ from vp import probe, specmodel as sm
 from vp import defaults
 from vp import reuse
 from vp import forms as argforms
+from vp import corners
 
 RULE = ('seeded generator: pairs of spectra with identical / nested / partially overlapping / disjoint ranges on uniform and '
         'non-uniform grids (2..40 samples), the five operators, sampling min/left/right/float, methods linear/quadratic/cubic '
@@ -25,7 +26,7 @@ ASSUMPTIONS = ['grid points within 1e-9 (relative) of an operand end point, but 
                'a divisor that interpolates to zero only to rounding is not evidence; a zero fill value outside the divisor range is an exact zero '
                '(a / 0 = inf, 0 / 0 = nan are required there)']
 PLAN = {'quick': {'gen': 8}, 'thorough': {'gen': 16, 'tests': 1, 'docs': 1}}
-REQUIRED_BUCKETS = ['defaults', 'reuse', 'forms', 'range:identical', 'range:nested', 'range:overlap', 'range:disjoint', 'grid:uniform', 'grid:nonuniform',
+REQUIRED_BUCKETS = ['defaults', 'corners', 'reuse', 'forms', 'range:identical', 'range:nested', 'range:overlap', 'range:disjoint', 'grid:uniform', 'grid:nonuniform',
                     'op:add', 'op:subtract', 'op:multiply', 'op:divide', 'op:power', 'sampling:min', 'sampling:left',
                     'sampling:right', 'sampling:float', 'fill:0', 'fill:nonzero', 'fill:pair', 'unit:nm', 'unit:um', 'unit:m',
                     'unit:angstrom', 'unit:mixed', 'scalar', 'vector', 'method:quadratic', 'method:cubic', 'blackbody', 'density', 'update-sequence', 'values:integer', 'scalar:numpy-type', 'scalar:integer-values', 'scalar:narrow-float-values', 'same-spectrum:two-units', 'grid:decimal-step', 'grid:huge', 'scalar-on-the-left:nonuniform-grid', 'scalar:boolean-values', 'grid:line-profile']
@@ -270,6 +271,7 @@ def workload(ctx, lentil):
     defaults.run(ctx, lentil, 'C13', 'grid')
     reuse.run(ctx, lentil, 'C13', 'grid')
     argforms.run(ctx, lentil, 'C13', 'grid')
+    corners.run(ctx, lentil, 'C13', 'grid')
     rng = ctx.rng
     R = lentil.radiometry
     n = ctx.count(160, 1200)
